@@ -492,7 +492,7 @@ func genIndexSpec(c *hlib.Ctx, n int) (string, map[string][]string, []string) {
 		if _, ok := m[name]; ok {
 			continue
 		}
-		cnt := []int{1, 2, 3, n - 1, n, n + 1, 2 * n, 2*n + 1, 3*n - 1, r.Range(1, 40), r.Range(1, 150)}[r.Intn(11)]
+		cnt := []int{1, 2, 3, n - 1, n, n + 1, 2 * n, 2*n + 1, 3*n - 1, 4*n + 1, r.Range(1, 40), r.Range(20, 150), r.Range(60, 260)}[r.Intn(13)]
 		if cnt < 1 {
 			cnt = 1
 		}
@@ -575,7 +575,7 @@ func genWanted(c *hlib.Ctx, vs []string) []string {
 
 func genC11(c *hlib.Ctx) {
 	r := c.R
-	indexes := c.N(40, 1200)
+	indexes := c.N(40, 260) // (every op line carries the index spec: ~2 KB per line)
 	for it := 0; it < indexes; it++ {
 		n := []int{1, 2, 3, 4, 5, 8, 16, 32, 64, r.Range(1, 64)}[r.Intn(10)]
 		spec, m, names := genIndexSpec(c, n)
@@ -585,7 +585,7 @@ func genC11(c *hlib.Ctx) {
 			continue
 		}
 		// several sampling rates on the same index
-		rates := []int{n, r.Range(1, 64), []int{1, 2, 3, 32}[r.Intn(4)]}
+		rates := []int{n, r.Range(1, 64), []int{1, 2, 3, 5, 32}[r.Intn(5)]}
 		for _, rate := range rates {
 			c.Count(fmt.Sprintf("sampling:%s", bucket(rate)))
 			c.Do(fmt.Sprintf("o.ih.meta %d %s", rate, spec), true)
@@ -600,7 +600,7 @@ func genC11(c *hlib.Ctx) {
 				default:
 					c.Count("table:last-off-sample")
 				}
-				for q := 0; q < c.N(12, 30); q++ {
+				for q := 0; q < c.N(12, 20); q++ {
 					wanted := genWanted(c, vs)
 					nextOff, tbl, wr, _ := ix.derived(name, wanted)
 					hw := make([]string, len(wanted))
